@@ -357,7 +357,10 @@ class AEnv:
             k = v.kwargs.get("axis")
             if k is None:
                 return AT((), t.scalar)
-            return AT([ax for i, ax in enumerate(t.axes) if i != k % t.rank], t.scalar)
+            ks = {kk % t.rank for kk in (k if isinstance(k, (tuple, list)) else (k,)) if isinstance(kk, int) and not isinstance(kk, bool)}
+            if not ks or len(ks) != len(k if isinstance(k, (tuple, list)) else (k,)):
+                raise _Unknown("mean over a non-static axis")
+            return AT([ax for i, ax in enumerate(t.axes) if i not in ks], t.scalar)
         if op == "linalg.diagonal_matrix":
             t = self.need(a[0])
             if t.rank != 1:
